@@ -252,6 +252,20 @@ def eval_user(case):
         V.append(viol('userfile', 'delete_files', 'user file', 'did not remove exactly the named file',
                       f'delete_files([{name!r}]): {w}; left: {sorted(set(now) - set(protected_before))}, '
                       f'lost: {sorted(set(protected_before) - set(now))}'))
+    # a longer file replaced (overwrite=True) by a shorter text must read back as the shorter text
+    dd.write_txt('shrink.txt', 'a rather long first version of the text\n' * 3, overwrite=True)
+    dd.write_txt('shrink.txt', 'short\n', overwrite=True)
+    w, v = outcome_of(lambda: dd.read_txt('shrink.txt'))
+    if w == 'raises' or v != 'short\n':
+        V.append(viol('userfile', 'roundtrip', 'txt', 'overwritten text keeps a tail of the old content',
+                      f'write_txt(long) then write_txt("short", overwrite=True) reads back {v!r:.60}'))
+    dd.write_jsondict('shrink.json', {'key': 'x' * 80, 'other': list(range(20))}, overwrite=True)
+    dd.write_jsondict('shrink.json', {'k': 1}, overwrite=True)
+    w, v = outcome_of(lambda: dd.read_jsondict('shrink.json'))
+    if w == 'raises' or v != {'k': 1}:
+        V.append(viol('userfile', 'roundtrip', 'json', 'overwritten JSON file does not read back',
+                      f'write_jsondict(long) then write_jsondict(short, overwrite=True) reads back {v!r:.60}'))
+    dd.delete_files(['shrink.txt', 'shrink.json'])
     # ... also when names that do not exist come first in the list (they are skipped, the others still removed)
     for nm in ('x1.txt', 'x2.txt'):
         dd.write_txt(nm, 'x', overwrite=True)
